@@ -162,12 +162,51 @@ Fixpoint layout_doc (v : value) : bool :=
       && match assoc (Str "__type__") its with Some (VStr t) => block_word t | _ => false end
       && forallb (fun kv =>
                     match kind_of (fst kv) (snd kv) with
-                    | KHidden | KProjection | KRepeated | KConfig => true
+                    | KHidden | KProjection | KConfig => true
+                    | KRepeated => is_list (snd kv)
                     | KChildren => match snd kv with VList l => forallb layout_doc l | _ => false end
                     | KPairs | KPoints => num_tree (snd kv)
                     | KKeyValue => match snd kv with VDict _ kvs => no_comments kvs | _ => true end
                     | KChild => layout_doc (snd kv)
                     | KKeyword => key_word (fst kv)
+                    end) its
+  | _ => false
+  end.
+
+(* documents none of whose printed strings contains a line break, and whose
+   values have a one-line text: scalars and flat lists of scalars *)
+Definition scalar_nb (v : value) : bool :=
+  match v with
+  | VNone | VBool _ | VInt _ | VFloat _ _ => true
+  | VStr s => no_break s
+  | _ => false
+  end.
+
+Definition flat_nb (v : value) : bool :=
+  scalar_nb v || match v with VList l => forallb scalar_nb l | _ => false end.
+
+Definition kv_nb (v : value) : bool :=
+  match v with
+  | VDict _ kvs =>
+      no_comments kvs
+      && forallb (fun kv => no_break (fst kv) && scalar_nb (snd kv)) kvs
+  | _ => false
+  end.
+
+Fixpoint break_free_doc (v : value) : bool :=
+  match v with
+  | VDict _ its =>
+      no_comments its
+      && forallb (fun kv =>
+                    match kind_of (fst kv) (snd kv) with
+                    | KHidden => true
+                    | KChildren => match snd kv with VList l => forallb break_free_doc l | _ => false end
+                    | KPairs | KPoints => num_tree (snd kv)
+                    | KKeyValue | KConfig => kv_nb (snd kv)
+                    | KProjection => flat_nb (snd kv)
+                    | KRepeated => match snd kv with VList l => forallb scalar_nb l | _ => false end
+                    | KChild => break_free_doc (snd kv)
+                    | KKeyword => no_break (fst kv) && flat_nb (snd kv)
                     end) its
   | _ => false
   end.
@@ -188,6 +227,21 @@ Definition root_ok (v : value) : bool :=
 
 Definition roots_ok (v : value) : bool :=
   match v with VList l => forallb root_ok l | _ => root_ok v end.
+
+Definition is_root_keyvalue (v : value) : bool :=
+  match v with
+  | VDict _ its => match assoc (Str "__type__") its with
+                   | Some (VStr t) => mem_str t root_keyvalue_types
+                   | _ => false
+                   end
+  | _ => false
+  end.
+
+Definition break_free_root (v : value) : bool :=
+  if is_root_keyvalue v then kv_nb v else break_free_doc v.
+
+Definition break_free_roots (v : value) : bool :=
+  match v with VList l => forallb break_free_root l | _ => break_free_root v end.
 
 (* the simple keywords of an object: those printed on one keyword line *)
 Definition simple_keys (its : list (str * value)) : list str :=
